@@ -124,8 +124,6 @@ impl<K: KeyEq, V> FromIterator<(K, V)> for HashMap<K, V> {
 pub mod hash_map {
     use super::HashMap;
 
-    // explicit tag: a niche-encoded discriminant next to pointer payloads is not constant-folded by CBMC
-    #[repr(u8)]
     pub enum Entry<'a, K, V> {
         Occupied(OccupiedEntry<'a, K, V>),
         Vacant(VacantEntry<'a, K, V>),
